@@ -19,11 +19,11 @@ import (
 
 func init() {
 	Register(&Property{
-		ID:   "C06",
-		Run:  runC06,
-		Rule: "runs = generated sequences of authorizations (new, duplicate, single-field conflicts incl. key reuse, foreign/invalid signatures, for banned ids, random finite float64 coordinates) interleaved with reports, rotations and restarts; after every step the equipment model, the public surfaces (equipment list, recent reports by key, sync by id, live statistics, authorization file) and the server's own consistency check are compared; non-trivial = at least one conflict ban happened; distinct = distinct decision signatures",
-		Real: []string{"AuthorizeEquipmentHandler (JSON decode), managedAuthorizeEquipment, saveEquipment, loadEquipment (ban replay)", "EquipmentHandler, RecentReportsHandler, sync handler, stats handler", "CheckInvariants", "restart path"},
-		Stub: []string{"socket listeners", "peer servers (none configured)"},
+		ID:             "C06",
+		Run:            runC06,
+		Rule:           "runs = generated sequences of authorizations (new, duplicate, single-field conflicts incl. key reuse, foreign/invalid signatures, for banned ids, random finite float64 coordinates) interleaved with reports, rotations and restarts; after every step the equipment model, the public surfaces (equipment list, recent reports by key, sync by id, live statistics, authorization file) and the server's own consistency check are compared; non-trivial = at least one conflict ban happened; distinct = distinct decision signatures",
+		Real:           []string{"AuthorizeEquipmentHandler (JSON decode), managedAuthorizeEquipment, saveEquipment, loadEquipment (ban replay)", "EquipmentHandler, RecentReportsHandler, sync handler, stats handler", "CheckInvariants", "restart path"},
+		Stub:           []string{"socket listeners", "peer servers (none configured)"},
 		Assumptions:    []string{"fresh ids always carry fresh keys (the GCA assigning one key to two live ids is outside the listed space)"},
 		RequiredProbes: []string{"hist.conflict", "hist.auth-for-banned", "hist.restart", "c06.float-pattern", "c06.ban-with-data", "c06.conflict-key-reuse"},
 	})
